@@ -1,4 +1,5 @@
 import TcheranVerif.Proofs.MagicCert
+import TcheranVerif.Proofs.Sweep.S18  -- only to bound how many parts are checked at once (≈8 GB each)
 /-! C07 sweep, part 22: rook squares [41, 42, 43, 44] — decided by the kernel alone -/
 namespace Tcheran.Sweep
 
